@@ -2,6 +2,7 @@
 #include "wire.h"
 #include <cstring>
 #include <cstdio>
+#include <cstdlib>
 
 namespace vp {
 
@@ -21,6 +22,7 @@ bool Value::operator==(const Value& o) const {
   if (is_fixed_type(t)) return u == o.u;
   if (t == 's' || t == 'o' || t == 'g') return s == o.s;
   if (t == 'a' && s != o.s) return false;
+  if (t == 'a' && (big || o.big)) return big == o.big && u == o.u;
   if (kids.size() != o.kids.size()) return false;
   for (size_t i = 0; i < kids.size(); i++) if (!(kids[i] == o.kids[i])) return false;
   return true;
@@ -201,10 +203,12 @@ std::string encode_msg(const Msg& m, Layout* lay) {
 // ---------------------------------------------------------------- decoder
 
 namespace {
+const uint64_t kBigArray = 1u << 18;
 struct Rd {
   const uint8_t* p; size_t n; size_t pos; bool be;
   std::string err; int maxdepth = 0;
-  bool fail(const char* why) { if (err.empty()) err = why; return false; }
+  size_t errpos = 0;
+  bool fail(const char* why) { if (err.empty()) { err = why; errpos = pos; } return false; }
   bool align(int al) {
     while (pos % al) { if (pos >= n) return fail("truncated in alignment padding"); if (p[pos] != 0) return fail("alignment padding not zero"); pos++; }
     return true;
@@ -279,11 +283,22 @@ bool dec_(Rd& r, const std::string& sig, size_t& sp, int depth, Value& out) {
     if (!r.align(type_alignment(out.s[0]))) return false;
     if (l > r.n || r.pos + l > r.n) return r.fail("array length exceeds data");
     size_t end = r.pos + l;
+    if (l > kBigArray && is_fixed_type(out.s[0])) {
+      // big array of fixed-size elements: validate, but keep only (count, hash of element values) instead of one Value per element
+      int sz = fixed_size(out.s[0]);
+      if (l % sz) return r.fail("array length incorrect (not a multiple of the element size)");
+      uint64_t h = 1469598103934665603ull, cnt = 0;
+      Rd sub = r; sub.n = end;
+      while (sub.pos < end) { uint64_t x; if (!sub.get(sz, x)) return r.fail("array length incorrect"); if (out.s[0] == 'b' && x > 1) return r.fail("boolean not 0 or 1"); h = (h ^ x) * 1099511628211ull; cnt++; }
+      if (depth + 1 > r.maxdepth) r.maxdepth = depth + 1;
+      out.u = h; out.big = cnt;
+      r.pos = end; sp += 1 + el; return true;
+    }
     // elements must exactly fill [pos,end)
     Rd sub = r; sub.n = end;
     while (sub.pos < end) {
       Value k; size_t esp = 0;
-      if (!dec_(sub, out.s, esp, depth + 1, k)) { r.err = sub.err.empty() ? "bad array element" : sub.err; if (r.err.rfind("truncated", 0) == 0) r.err = "array length incorrect (" + r.err + ")"; r.maxdepth = sub.maxdepth; return false; }
+      if (!dec_(sub, out.s, esp, depth + 1, k)) { r.err = sub.err.empty() ? "bad array element" : sub.err; r.errpos = sub.errpos; if (r.err.rfind("truncated", 0) == 0) r.err = "array length incorrect (" + r.err + ")"; r.maxdepth = sub.maxdepth; return false; }
       out.kids.push_back(std::move(k));
     }
     r.maxdepth = sub.maxdepth;
@@ -312,6 +327,7 @@ Verdict finish_(Rd& r, std::string* reason) {
 }
 Verdict failv_(Rd& r, std::string* reason) {
   if (reason) *reason = r.err;
+  if (getenv("VP_ERRPOS") && reason) *reason += " @" + std::to_string(r.errpos);
   if (r.err.rfind("UNSPEC:", 0) == 0) return Verdict::Unspec;
   return Verdict::Invalid;
 }
